@@ -27,6 +27,24 @@ def generate(tier, seed):
             c['warmup'] = [fitcase.gen_source(rng, len(c['wav']), min_fitted=1) for _ in range(rng.randint(1, 2))]
         if k % 11 == 4:          # the judged source is an object that was fitted before in another state and edited in place since
             c['edited_from'] = fitcase.gen_source(rng, len(c['wav']), min_fitted=1)
+        if k % 13 == 5:
+            # a range of a whole number of decades and a step that divides it: 1 + L/step is a whole number
+            a = rng.choice([13.0, 14.0, 17.0, 23.0, 30.0, 40.0, 6.0, 0.09, 2.5, 1.0, 0.5])
+            c['drange'] = [a, a * 10 ** rng.choice([1, 1, 2])]
+            if F(c['drange'][1]) == F(a) * 10 ** (1 if c['drange'][1] < a * 50 else 2):
+                c['logd_step'] = rng.choice([0.5, 0.25, 0.1, 0.05, 0.02, 0.2, 0.15, 0.3])
+                for jj in range(len(c['wav'])):
+                    rmin = c['theta'][jj] * a * 1000.0
+                    shift = rmin * 0.7 / c['aps'][jj][0]
+                    c['aps'][jj] = [x * shift for x in c['aps'][jj]]
+                c['kind'] = 'decades'
+        if k % 9 == 7 and c.get('kind') != 'decades':
+            # the distance range held in single precision (both ends single-precision numbers)
+            import numpy as np
+            c['drange'] = [float(np.float32(x)) for x in c['drange']]
+            c['drange_dtype'] = 'float32'
+        if k % 7 == 3:
+            c['av_list'] = True
         if k % 12 == 0:   # malformed: smallest aperture above theta*dmin in one band
             j = rng.randrange(len(c['wav']))
             rmin = c['theta'][j] * c['drange'][0] * 1000.0
@@ -129,7 +147,8 @@ def model_requests(case, im=None):
         return [(op, [F(fr), [F(a) for a in case['aps']], [F(x) for x in row]])
                 for op in ('radius_sigma', 'radius_cumul') for fr in case['fracs'] for row in case['fl']]
     d0, d1 = case['drange']
-    L = float(np.log10(d1) - np.log10(d0))
+    k = fitcase.decades(case)
+    L = float(k) if k is not None else float(np.log10(d1 / d0))      # a whole number of decades is known exactly
     ds, logds = fitcase.grid_of(case)
     reqs = [fitcase.model_request(case),
             ('ndist', [F(L), F(case['logd_step'])]),
@@ -190,10 +209,18 @@ def judge(case, im, mo):
         if im['n_distances'] != 1:
             fail.append('grid: dmin==dmax gives %d distances' % im['n_distances'])
     else:
-        L = F(float(np.log10(d1) - np.log10(d0)))
+        kdec = fitcase.decades(case)
+        L = F(kdec) if kdec is not None else F(float(np.log10(d1 / d0)))
         x = 1 + L / F(case['logd_step'])
         frac = x - math.floor(x)
-        if frac == 0 or min(frac, 1 - frac) > Fraction(1, 10 ** 9):      # an exact whole number of steps is decidable; a near-integer is a rounding tie
+        if kdec is not None:
+            # a whole number of decades: the number of trial distances is decidable exactly
+            nex, ok = fitcase.n_grid(case)
+            tags.append('grid=decades')
+            if im['n_distances'] != nex and im['n_distances'] not in ok:
+                fail.append('grid: %d trial distances for the range [%r, %r] kpc (%d decade(s)) and step %r; the fewest with spacing <= step are %d'
+                            % (im['n_distances'], d0, d1, kdec, case['logd_step'], nex))
+        elif frac == 0 or min(frac, 1 - frac) > Fraction(1, 10 ** 9):      # an exact whole number of steps is decidable; a near-integer is a rounding tie
             if im['n_distances'] != nmodel:
                 disagree.append('n_distances: implementation %d, model %d' % (im['n_distances'], nmodel))
             n = im['n_distances']
